@@ -293,6 +293,26 @@ Proof.
   - cbn [assoc_last]. rewrite str_eqb_refl. reflexivity.
 Qed.
 
+(* the reading of "without their two-character prefix": the code removes two characters from the JOINED
+   string, so only the first token loses its prefix; later tokens keep theirs *)
+Theorem vw_prefix_is_of_joined_string :
+  (forall (t1 : list N) ts, (2 <= length t1)%nat -> ts <> [] ->
+     skipn 2 (join_with [DASH] (t1 :: ts)) = skipn 2 t1 ++ [DASH] ++ join_with [DASH] ts) /\
+  (exists fw header l, wf_vw l /\
+     map snd (flat_map ns_toks (vl_nss l)) = [[99; 95; 120]; [99; 95; 121]] /\
+     parse_vw fw header (render_vw l) = [Some [49]; Some [120; 45; 99; 95; 121]]).
+Proof.
+  split.
+  - intros t1 ts H Hne. destruct ts as [|t2 ts]; [congruence|].
+    change (join_with [DASH] (t1 :: t2 :: ts)) with (t1 ++ [DASH] ++ join_with [DASH] (t2 :: ts)).
+    destruct t1 as [|a [|b t1]]; cbn [length] in H; try lia. reflexivity.
+  - exists [([99], [102; 67])], [LABEL; [102; 67]],
+           (mk_vw [49] [] 1 [mk_ns [99] [(0%nat, [99; 95; 120]); (0%nat, [99; 95; 121])] 0]).
+    split; [|split; vm_compute; reflexivity].
+    unfold wf_vw, wf_ns, wf_toks, word, edge_clean, last_ok. cbn.
+    repeat split; try discriminate; repeat constructor; try discriminate.
+Qed.
+
 Example vw_nonvacuous :
   let fw : dict := [([97], [102; 65]); ([98], [102; 66]); ([99], [102; 67])] in
   let l := mk_vw [49] [(0%nat, [50; 46; 48])] 1
